@@ -27,8 +27,7 @@ endpoint's frames (`data`, `sclose` for RST_STREAM / END_STREAM on HEADERS, `sto
 namespace NetVerif.Model.SendWin
 open NetVerif.Model.Flow
 
-/-- 2^31-1. -/
-def maxWindow : Int := 2147483647
+-- `maxWindow` (2^31-1) is `Flow.maxWindow`.
 /-- RFC 9113 §6.5.2 bounds of SETTINGS_MAX_FRAME_SIZE (`Setting.Valid`). -/
 def minMaxFrame : Int := 16384
 def maxMaxFrame : Int := 16777215
@@ -326,7 +325,7 @@ def Send.step (r : Role) (s : Send) : Act → Send × List Ev
     if s.dead then (s, [.settings mfs iw])
     else let (s', evs) := s.settings r mfs iw; (s', .settings mfs iw :: evs)
   | .wu sid inc =>
-    if s.dead ∨ inc < 0 then (s, [.wu sid inc])
+    if s.dead ∨ inc < 0 ∨ inc > maxWindow then (s, [.wu sid inc])   -- the increment is a 31-bit field
     else let (s', evs) := s.windowUpdate sid inc; (s', .wu sid inc :: evs)
   | .sopen sid =>
     if s.dead then (s, [.sopen sid])
